@@ -166,7 +166,7 @@ def check(ctx, floors=True, only_literals=False):
                 ok = (own and t == "P%d" % own[0]) or re.fullmatch(r"P\d+(\.settings)?\.alloc_crate_path", t) is not None
                 ctx.expect(ok, "C09.4", "alloc-thread/%s/%s" % (cshort(b["path"]), cshort(n["callee"])), n["sp"],
                            "passes its own alloc-path parameter / the settings' alloc path (`%s`)" % t, "conversion is called with alloc path `%s`" % t)
-    ctx.count("alloc-path threading sites", n_thread, 8)
+    ctx.count("alloc-path threading sites", n_thread, 3)      # 8 on the reference tree; calls funnelled through one local closure are one site
     # the tables and conversions themselves, with the strict root / threading expectation
     G.prim_syn_table(ctx, "C09.3", strict_root=True)
     with ctx.only(lambda k: not k.startswith("prelude/missing")):
